@@ -258,3 +258,108 @@ Proof.
     apply IH; [apply kset_sorted; exact Hs|]. intros e He. destruct (kset_in _ _ _ _ He) as [->|Hin]; [reflexivity|apply Hk; exact Hin]. }
   apply G; [constructor|intros e []].
 Qed.
+
+(* ------------------------------------------------------------------ C12: vesting types *)
+From C4E Require Import Genesis.
+
+Lemma g_units_eq d : g_units_from_duration d = units_from_duration d.
+Proof. reflexivity. Qed.
+
+Lemma units_duration_of_export d : Z.rem d SEC = 0 ->
+  units_duration (fst (g_units_from_duration d)) (snd (g_units_from_duration d)) = Some d.
+Proof.
+  intros H. rewrite g_units_eq. unfold units_from_duration.
+  destruct (Z.rem d DAY =? 0) eqn:E1; cbn [fst snd].
+  - unfold units_duration. cbn [Z.eqb]. f_equal. pose proof (Z.quot_rem' d DAY). unfold DAY, HOUR, MINUTE, SEC, G_SEC in *. lia.
+  - destruct (Z.rem d HOUR =? 0) eqn:E2; cbn [fst snd].
+    + unfold units_duration. cbn [Z.eqb Pos.eqb]. f_equal. pose proof (Z.quot_rem' d HOUR). unfold HOUR, MINUTE, SEC, G_SEC in *. lia.
+    + destruct (Z.rem d MINUTE =? 0) eqn:E3; cbn [fst snd].
+      * unfold units_duration. cbn [Z.eqb Pos.eqb]. f_equal. pose proof (Z.quot_rem' d MINUTE). unfold MINUTE, SEC, G_SEC in *. lia.
+      * unfold units_duration. cbn [Z.eqb Pos.eqb]. f_equal. pose proof (Z.quot_rem' d SEC). unfold SEC, G_SEC in *. lia.
+Qed.
+
+Definition whole_seconds (e : Z * (Z * Z * Z)) : Prop := match snd e with (a, b, _) => Z.rem a SEC = 0 /\ Z.rem b SEC = 0 end.
+
+Lemma entry_of_export e : whole_seconds e -> gvtype_entry (export_vtype e) = Some e.
+Proof.
+  destruct e as [k [[a b] f]]. unfold whole_seconds, export_vtype, gvtype_entry. cbn [snd fst gv_lock_unit gv_lock gv_vest_unit gv_vest gv_name gv_free].
+  intros [Ha Hb]. rewrite (units_duration_of_export a Ha), (units_duration_of_export b Hb). reflexivity.
+Qed.
+
+(* exporting the vesting types of a store (kept in name order, periods in whole seconds) and importing the export gives the
+   store back: names, both periods in nanoseconds and the free fraction *)
+Theorem vtype_store_export_import_identity s :
+  ksorted (vs_vtypes s) -> Forall whole_seconds (vs_vtypes s) ->
+  vtypes_store (map gvtype_entry (vstore_export_vtypes s)) = vs_vtypes s.
+Proof.
+  intros Hs Hw. unfold vtypes_store, vstore_export_vtypes. rewrite map_map.
+  assert (G : forall l acc, Forall whole_seconds l -> ksorted (acc ++ l) ->
+              fold_left (fun st x => match x with Some e => kset (fst e) (snd e) st | None => st end)
+                (map (fun e => gvtype_entry (export_vtype e)) l) acc = acc ++ l).
+  { induction l as [|e t IH]; intros acc Hl H; cbn [map fold_left]; [rewrite app_nil_r; reflexivity|].
+    inversion Hl as [|? ? Hws Ht]; subst. rewrite (entry_of_export e Hws). destruct e as [k v]. cbn [fst snd].
+    rewrite kset_beyond.
+    - replace (acc ++ (k, v) :: t) with ((acc ++ [(k, v)]) ++ t) by (rewrite <- app_assoc; reflexivity).
+      apply IH; [exact Ht|rewrite <- app_assoc; exact H].
+    - unfold ksorted, keys in H. rewrite map_app in H. cbn [map fst] in H.
+      clear IH. induction acc as [|[k0 v0] a0 IHa]; cbn [map fst app] in *; [constructor|].
+      inversion H as [|? ? Ht0 Hall]; subst. constructor; [|apply IHa; exact Ht0].
+      rewrite Forall_forall in Hall. apply Hall. apply in_or_app. right. left. reflexivity. }
+  apply (G (vs_vtypes s) []); assumption.
+Qed.
+
+(* and what InitGenesis stores always has whole-second periods, so the hypothesis holds of every store that came from a genesis *)
+Lemma some_inj (x y : Z) : Some x = Some y -> x = y.
+Proof. intros H. congruence. Qed.
+
+Lemma units_duration_whole u v d : units_duration u v = Some d -> Z.rem d SEC = 0.
+Proof.
+  assert (Hs : SEC <> 0) by (unfold SEC; lia).
+  assert (M : forall c, Z.rem (c * SEC) SEC = 0) by (intros c; apply Z.rem_mul; exact Hs).
+  unfold units_duration. intros H.
+  destruct (u =? 0); [apply some_inj in H; rewrite <- H; replace (24 * 3600 * G_SEC * v) with ((24 * 3600 * v) * SEC) by (unfold G_SEC, SEC; ring); apply M|].
+  destruct (u =? 1); [apply some_inj in H; rewrite <- H; replace (3600 * G_SEC * v) with ((3600 * v) * SEC) by (unfold G_SEC, SEC; ring); apply M|].
+  destruct (u =? 2); [apply some_inj in H; rewrite <- H; replace (60 * G_SEC * v) with ((60 * v) * SEC) by (unfold G_SEC, SEC; ring); apply M|].
+  destruct (u =? 3); [apply some_inj in H; rewrite <- H; replace (G_SEC * v) with (v * SEC) by (unfold G_SEC, SEC; ring); apply M|discriminate].
+Qed.
+
+Lemma vtypes_store_whole es : Forall (fun x => match x with Some e => whole_seconds e | None => True end) es ->
+  Forall whole_seconds (vtypes_store es).
+Proof.
+  unfold vtypes_store. assert (G : forall es acc, Forall (fun x => match x with Some e => whole_seconds e | None => True end) es ->
+    Forall whole_seconds acc -> Forall whole_seconds (fold_left (fun s x => match x with Some e => kset (fst e) (snd e) s | None => s end) es acc)).
+  { clear es. induction es as [|[e|] t IH]; intros acc He Ha; cbn [fold_left]; [exact Ha| |].
+    - inversion He as [|? ? H1 H2]; subst. apply IH; [exact H2|].
+      rewrite Forall_forall. intros x Hx. destruct (kset_in _ _ _ _ Hx) as [->|Hin]; [destruct e; exact H1|].
+      rewrite Forall_forall in Ha. apply Ha; exact Hin.
+    - inversion He; subst. apply IH; assumption. }
+  intros H. apply G; [exact H|constructor].
+Qed.
+
+Theorem init_vtype_store_whole_seconds g B s : vgenesis_init g B = Some s -> Forall whole_seconds (vs_vtypes s).
+Proof.
+  unfold vgenesis_init. destruct (negb (vg_denom_nonempty g && vg_denom_ok g)); [discriminate|].
+  destruct (negb (genesis_locked g =? B)); [discriminate|]. destruct (existsb (fun t => gv_name t =? 0) (vg_vtypes g)); [discriminate|].
+  destruct (existsb _ (map gvtype_entry (vg_vtypes g))); [discriminate|]. intros H. injection H as <-. cbn [vs_vtypes].
+  apply vtypes_store_whole. rewrite Forall_forall. intros x Hx. apply in_map_iff in Hx. destruct Hx as (t & <- & _).
+  unfold gvtype_entry. destruct (units_duration (gv_lock_unit t) (gv_lock t)) as [a|] eqn:Ea; [|exact I].
+  destruct (units_duration (gv_vest_unit t) (gv_vest t)) as [b|] eqn:Eb; [|exact I].
+  unfold whole_seconds. cbn [snd]. split; eapply units_duration_whole; eassumption.
+Qed.
+
+Lemma vtypes_store_sorted es : ksorted (vtypes_store es).
+Proof.
+  unfold vtypes_store. assert (G : forall es (acc : list (Z * (Z * Z * Z))), ksorted acc ->
+    ksorted (fold_left (fun s x => match x with Some e => kset (fst e) (snd e) s | None => s end) es acc)).
+  { clear es. induction es as [|[e|] t IH]; intros acc Ha; cbn [fold_left]; [exact Ha| |apply IH; exact Ha].
+    apply IH. apply kset_sorted. exact Ha. }
+  apply G. constructor.
+Qed.
+
+Theorem init_vtype_store_sorted g B s : vgenesis_init g B = Some s -> ksorted (vs_vtypes s).
+Proof.
+  unfold vgenesis_init. destruct (negb (vg_denom_nonempty g && vg_denom_ok g)); [discriminate|].
+  destruct (negb (genesis_locked g =? B)); [discriminate|]. destruct (existsb (fun t => gv_name t =? 0) (vg_vtypes g)); [discriminate|].
+  destruct (existsb _ (map gvtype_entry (vg_vtypes g))); [discriminate|]. intros H. injection H as <-. cbn [vs_vtypes].
+  apply vtypes_store_sorted.
+Qed.
